@@ -775,6 +775,11 @@ func c10r7(c *Ctx, id string) {
 					okApp = false
 				}
 			})
+			if nApp == 0 && pickedOnFailedPing(w, f, call) {
+				// the closure is the predicate of a collecting helper: it answers "remove" ⇔ the ping failed, and the
+				// helper appends the key ⇔ the predicate said so
+				nApp, okApp = 1, true
+			}
 			c.Check(nApp == 1 && okApp, id, "remove-on-failed-ping@"+fname(f), call.Pos(), "a follower is queued for removal ⇔ its Ping returned an error", fmt.Sprintf("the removal list is not filled exactly under err≠nil of the follower's ping (%d appends, guarded only by the ping error: %v)", nApp, okApp))
 		})
 	}
@@ -859,4 +864,86 @@ func c10r7(c *Ctx, id string) {
 		}
 		return ""
 	}, "attempts = min(n, first success); nil ⇔ an attempt succeeded; otherwise the last attempt's error (n = 0..4, 0..5 leading failures)")
+}
+
+// pickedOnFailedPing: f is a predicate closure whose every return is `ping's error != nil`, handed to a module helper
+// that ranges over a map wrapper and appends the key exactly when the predicate returned true.
+func pickedOnFailedPing(w *World, f *ssa.Function, ping *ssa.Call) bool {
+	if f.Parent() == nil || f.Signature.Results().Len() != 1 {
+		return false
+	}
+	okRet, n := true, 0
+	allInstrs(f, func(in ssa.Instruction) {
+		r, isR := in.(*ssa.Return)
+		if !isR || len(r.Results) != 1 {
+			return
+		}
+		n++
+		eq, isCmp := isNilCompare(r.Results[0], func(v ssa.Value) bool { return v == ssa.Value(ping) })
+		if !isCmp || eq {
+			okRet = false
+		}
+	})
+	if !okRet || n == 0 {
+		return false
+	}
+	// where the closure goes
+	found := false
+	allInstrs(f.Parent(), func(in ssa.Instruction) {
+		cc := callOf(in)
+		if cc == nil || cc.IsInvoke() {
+			return
+		}
+		g := cc.StaticCallee()
+		if g == nil || g.Blocks == nil || !w.inModule(g) {
+			return
+		}
+		pi := -1
+		for i, a := range cc.Args {
+			if closureOf(a) == f {
+				pi = i
+			}
+		}
+		if pi < 0 || pi >= len(g.Params) {
+			return
+		}
+		// in g: Range(closure) where the closure appends its key under pick(...) == true, exactly once, always continues
+		allInstrs(g, func(x ssa.Instruction) {
+			c2 := callOf(x)
+			if c2 == nil {
+				return
+			}
+			if m, _ := csmapMethod(c2); m != "Range" || len(c2.Args) != 2 {
+				return
+			}
+			rc := closureOf(c2.Args[1])
+			if rc == nil {
+				return
+			}
+			nApp, okApp := 0, true
+			allInstrs(rc, func(y ssa.Instruction) {
+				c3 := callOf(y)
+				if c3 == nil {
+					return
+				}
+				if b, isB := c3.Value.(*ssa.Builtin); !isB || b.Name() != "append" {
+					return
+				}
+				nApp++
+				gs := guardsOf(y.Block())
+				if len(gs) != 1 || !gs[0].Branch {
+					okApp = false
+					return
+				}
+				pc, isCall := gs[0].Cond.(*ssa.Call)
+				if !isCall || !strings.Contains(w.Origin(pc.Common().Value), "param("+g.Params[pi].Name()+")") {
+					okApp = false
+				}
+			})
+			if nApp == 1 && okApp {
+				found = true
+			}
+		})
+	})
+	return found
 }
